@@ -650,6 +650,10 @@ fn spawn_async_ao_list_in_task'''),
         ('token-start-reported-as-its-end', 'brush-core/src/completion.rs', "        tokens.push(CompletionToken {\n            text: &input[start..],\n            start,\n        });", "        tokens.push(CompletionToken {\n            text: &input[start..],\n            start: input.len(),\n        });"),
         ('word-start-taken-one-byte-late', 'brush-core/src/completion.rs', "            // Start or continue a word\n            if word_start.is_none() {\n                word_start = Some(i);", "            // Start or continue a word\n            if word_start.is_none() {\n                word_start = Some(i + 1);"),
     ],
+    'U10d': [
+        ('dot-file-eligibility-sticks-across-components', 'brush-core/src/patterns.rs', [("        for component in components {\n            if !component.iter().any(|piece| {", "        let mut allow_dot_files = !options.require_dot_in_pattern_to_match_dot_files;\n\n        for component in components {\n            if !component.iter().any(|piece| {"), ("                let allow_dot_files = !options.require_dot_in_pattern_to_match_dot_files\n                    || subpattern_starts_with_dot;\n", "                allow_dot_files = allow_dot_files || subpattern_starts_with_dot;\n")]),
+        ('dot-files-always-listed', 'brush-core/src/patterns.rs', "                    !dir_entry.file_name().to_string_lossy().starts_with('.') || allow_dot_files\n", "                    !dir_entry.file_name().to_string_lossy().starts_with('.') || true\n"),
+    ],
     'U35': [
         ('handler-word-that-names-a-signal-resets-instead', 'brush-builtins/src/trap.rs', "            Ok(ExecutionResult::success())\n        } else {\n            let handler = &self.args[0];", "            Ok(ExecutionResult::success())\n        } else if self.args[0].parse::<TrapSignal>().is_ok() {\n            for signal in &self.args {\n                Self::remove_all_handlers(&mut context, signal.parse()?);\n            }\n            Ok(ExecutionResult::success())\n        } else {\n            let handler = &self.args[0];"),
         ('handler-also-installed-for-its-own-name', 'brush-builtins/src/trap.rs', "            for signal in &self.args[1..] {\n                signal_types.push(signal.parse()?);\n            }", "            for signal in &self.args {\n                if let Ok(s) = signal.parse() { signal_types.push(s); }\n            }"),
